@@ -200,6 +200,13 @@ abbrev Metadata := List (String × String)
 inductive ProviderKind where
   | basic                         -- deep.api.auth.BasicAuthProvider
   | custom (md : Metadata)        -- any other class: `provide()` returns `md`
+  /-- `get_provider` RAISES for the configured name: no dot (ValueError), unknown module (ModuleNotFoundError), unknown
+      attribute (AttributeError), the attribute is `None` — e.g. `builtins.None` — (UnknownAuthProvider), not callable /
+      abstract (TypeError); also a loaded object without `provide` (AttributeError in `_build_metadata`) -/
+  | unloadable
+  /-- the configured name is a callable that returns `None` (e.g. `builtins.print`): `get_provider` returns `None`, which
+      `_build_metadata` treats as "no provider" -/
+  | notAProvider
 deriving Repr, DecidableEq
 
 structure AuthCfg where
@@ -217,6 +224,8 @@ def expectedMetadata (c : AuthCfg) : Metadata :=
   | some _ =>
     match c.kind with
     | .custom md => md
+    | .unloadable => []             -- it supplies nothing (and nothing is ever sent: `c08_auth_unloadable_sends_nothing`)
+    | .notAProvider => []
     | .basic =>
       match c.username, c.password with
       | some u, some p => [("authorization", "Basic%20" ++ b64encode (utf8 (u ++ ":" ++ p)))]
@@ -225,9 +234,11 @@ def expectedMetadata (c : AuthCfg) : Metadata :=
 /-- `AuthProvider.get_provider(config)` followed by `provide()` -/
 def provided (c : AuthCfg) : Option Metadata :=
   if noProvider c.providerName then none
-  else some (match c.kind with
-             | .basic => basicProvide c.username c.password
-             | .custom md => md)
+  else match c.kind with
+       | .basic => some (basicProvide c.username c.password)
+       | .custom md => some md
+       | .unloadable => some []     -- never reached: `effFaults` makes `_build_metadata` raise first
+       | .notAProvider => none
 
 /-- `GRPCService`: the metadata cache, and how often the provider has been asked so far -/
 structure Grpc where
@@ -250,6 +261,12 @@ def Grpc.metadata (g : Grpc) (c : AuthCfg) (faults : Nat → Bool) : Option Meta
       else
         let md := buildMetadata (some p)
         (some md, { cache := if metadataCached then some md else none, asked := g.asked + 1 })
+
+/-- a provider configured and `get_provider` raises for it -/
+def AuthCfg.unloadable (c : AuthCfg) : Bool := !noProvider c.providerName && decide (c.kind = .unloadable)
+
+/-- the faults of a configuration: those of the environment, and EVERY call when the class cannot be loaded -/
+def effFaults (c : AuthCfg) (faults : Nat → Bool) : Nat → Bool := fun i => c.unloadable || faults i
 
 /-- what reaches a stub: the request and the `metadata=` keyword (`none` = the call has no such keyword) -/
 structure Sent (α : Type) where
@@ -299,6 +316,9 @@ def step (c : AuthCfg) (faults : Nat → Bool) (g : Grpc) : Op → Wire × Grpc
 def run (c : AuthCfg) (faults : Nat → Bool) : Grpc → List Op → List Wire
   | _, [] => []
   | g, op :: ops => let (w, g') := step c faults g op; w :: run c faults g' ops
+
+/-- the operations of an agent configured with `c` (`run` with the configuration's own faults) -/
+def runCfg (c : AuthCfg) (faults : Nat → Bool) (g : Grpc) (ops : List Op) : List Wire := run c (effFaults c faults) g ops
 
 /-! ### several threads at `metadata()` (poll timer thread, task pool threads)
 
